@@ -25,3 +25,25 @@ package mapping
 //@   ensures err: result1 != nil ==> result == nil
 //@   ensures SuffixM(b)
 //@   modifies *b
+
+// Encode: appends the kind flag, the base and the index offset (17 bytes); nothing already in the buffer changes.
+//@ func IndexMapping.Encode
+//@   serves C19 C06 C07
+//@   requires this != nil && b != nil
+//@   ensures append-only: enc.PrefixKept(b) && len(*b) == old(len(*b)) + 17
+//@   modifies *b, arr(*b)
+//@ func LogarithmicMapping.Encode
+//@   serves C19 C06 C07
+//@   requires b != nil
+//@   ensures append-only: enc.PrefixKept(b) && len(*b) == old(len(*b)) + 17
+//@   modifies *b, arr(*b)
+//@ func LinearlyInterpolatedMapping.Encode
+//@   serves C19 C06 C07
+//@   requires b != nil
+//@   ensures append-only: enc.PrefixKept(b) && len(*b) == old(len(*b)) + 17
+//@   modifies *b, arr(*b)
+//@ func CubicallyInterpolatedMapping.Encode
+//@   serves C19 C06 C07
+//@   requires b != nil
+//@   ensures append-only: enc.PrefixKept(b) && len(*b) == old(len(*b)) + 17
+//@   modifies *b, arr(*b)
